@@ -13,6 +13,24 @@ def _rockit():
     return rockit
 
 
+class PowerRule:
+    """Picklable user function for FunctionGrid: normalised locations (i/N)**power."""
+
+    def __init__(self, power):
+        self.power = power
+
+    def __call__(self, N):
+        return [(i / N) ** self.power for i in range(N + 1)]
+
+
+class TableRule:
+    def __init__(self, pts):
+        self.pts = pts
+
+    def __call__(self, N):
+        return list(self.pts[str(N)])
+
+
 def make_grid(g):
     """Always a fresh grid object (module-level default grid instances are shared singletons)."""
     from rockit import UniformGrid, GeometricGrid, FreeGrid, DensityGrid, DenseEdgesGrid
@@ -32,9 +50,8 @@ def make_grid(g):
     if cls == "function":
         pts = g["points"]  # dict str(N) -> list or a power rule
         if g.get("rule") == "power":
-            pw = g["power"]
-            return FunctionGrid(lambda N, pw=pw: [(i / N) ** pw for i in range(N + 1)], **kw)
-        return FunctionGrid(lambda N, pts=pts: list(pts[str(N)]), **kw)
+            return FunctionGrid(PowerRule(g["power"]), **kw)
+        return FunctionGrid(TableRule(pts), **kw)
     if cls == "density":
         tau = ca.MX.sym("tau")
         a, b = g["a"], g["b"]  # density a + b*tau  (positive on [0,1])
